@@ -65,6 +65,8 @@ def _add_dev_lag(cell, dev_lag, unit):
     elif "day" in _unit:
         return cell.period_end + datetime.timedelta(dev_lag)
     elif _unit == "timedelta":
+        if isinstance(dev_lag, datetime.timedelta):
+            return cell.period_end + dev_lag
         return cell.period_end + datetime.timedelta(dev_lag)
     else:
         raise ValueError(
